@@ -80,6 +80,15 @@ pub trait GroupApi:
     fn cache() -> &'static Mutex<HashMap<N, Pt<Self::RF>>>;
     /// k * P (the scalar on the left)
     fn lmul(k: Fr, p: Self) -> Self;
+    /// additional Jacobian scale factors that hit structurally special values of the coordinate field
+    /// (for F_q2: purely imaginary and mixed elements; for F_q nothing beyond 2, -1, generic)
+    fn extra_scales(_seed: u64) -> Vec<Self::RF> {
+        vec![]
+    }
+    /// embeddings of a base-field value into the coordinate field that are used as scale factors
+    fn scale_embeddings(x: &N) -> Vec<Self::RF> {
+        vec![Self::rf_from_n(x)]
+    }
 }
 
 /// cached reference scalar multiple d*G (d reduced mod r)
@@ -267,6 +276,18 @@ impl GroupApi for G2 {
     }
     fn lmul(k: Fr, p: Self) -> Self {
         k * p
+    }
+    fn extra_scales(seed: u64) -> Vec<F2> {
+        let g = mccore::alpha::generic(q(), seed, 0x6300, 1).pop().unwrap();
+        vec![
+            F2 { a: N::zero(), b: N::one() },        // u: purely imaginary
+            F2 { a: N::zero(), b: q() - n(1) },      // -u
+            F2 { a: N::zero(), b: g },               // t*u
+            F2 { a: N::one(), b: N::one() },         // 1 + u
+        ]
+    }
+    fn scale_embeddings(x: &N) -> Vec<F2> {
+        vec![F2 { a: x % q(), b: N::zero() }, F2 { a: N::zero(), b: x % q() }]
     }
 }
 
@@ -554,6 +575,9 @@ pub fn reps_nonid<G: GroupApi>(seed: u64, extra_scales: &[G::RF]) -> Vec<Rep<G::
     ];
     for s in extra_scales {
         v.push(Rep::Scaled(s.clone()));
+    }
+    for s in G::extra_scales(seed) {
+        v.push(Rep::Scaled(s));
     }
     v
 }
